@@ -240,7 +240,7 @@ async def play(lab: L.Lab, case: dict, port: int, bind_port: int | None) -> dict
                 'eof_at': s.eof_at,
                 'closed_local_at': s.closed_local_at,
                 'reset': s.reset_seen,
-                'rx': [[round(t, 4), ty, body.hex() if len(body) <= 256 else body[:256].hex() + f'..+{len(body) - 256}'] for t, ty, body in s.timed_messages()],
+                'rx': [[round(t, 4), ty, body.hex() if len(body) <= case.get('rx_limit', 256) else body[:256].hex() + f'..+{len(body) - 256}'] for t, ty, body in s.timed_messages()],
                 'rx_len': len(s.rx),
                 'rx_tail': s.messages()[1].hex()[:80],
                 'tx': [[round(t, 4), len(d), d[18] if len(d) > 18 else -1] for t, d in s.tx_log],
